@@ -40,10 +40,29 @@ var factExpand func(e ast.Expr) ast.Expr
 // path of the helper that can yield val (util_inline.go).
 var factCallExpand func(call *ast.CallExpr, val bool) []condFact
 
+// autoExpanders caches the boolean-local expander of a function body (keyed by the root of its parent map)
+var autoExpanders = map[ast.Node]func(e ast.Expr) ast.Expr{}
+
 func collectFacts(parents map[ast.Node]ast.Node, at ast.Node) []condFact {
 	var out []condFact
 	var add func(e ast.Expr, neg bool)
 	depth := 0
+	factExpand := factExpand
+	if factExpand == nil && curProg != nil {
+		// every rule sees through single-assignment boolean locals (`ok := a && b; if ok {...}`)
+		top := at
+		for parents[top] != nil {
+			top = parents[top]
+		}
+		exp, seen := autoExpanders[top]
+		if !seen {
+			if info := curProg.InfoAt(top.Pos()); info != nil {
+				exp = boolLocalExpander(info, top)
+			}
+			autoExpanders[top] = exp
+		}
+		factExpand = exp
+	}
 	add = func(e ast.Expr, neg bool) {
 		e = ast.Unparen(e)
 		if factExpand != nil && depth < 4 {
